@@ -1149,3 +1149,8 @@ func (w *World) SyncAllPodCaches() {
 		_ = w.podIdx.Add(p.DeepCopy())
 	}
 }
+
+// BindWith calls Bind on a specific plugin instance (an instance that was replaced by a restart may still be finishing a request).
+func (w *World) BindWith(p *schedulerplugin.FloatingIPPlugin, ns, name, uid, node string) error {
+	return p.Bind(&schedulerapi.ExtenderBindingArgs{PodName: name, PodNamespace: ns, PodUID: types.UID(uid), Node: node})
+}
